@@ -70,6 +70,8 @@ Init == /\ expect = [t |-> "none"]
              \* large systems (where the restarted / iterative local solvers really iterate) only for the Laplacian class
              /\ (op \in SolveOps /\ Len(N) >= 3 /\ N[1] >= 12 => sys = "laplace" /\ g \in {"none", "fresh"} /\ ls = 1)
              /\ (op \in DivideOps \cup CrossOps \cup ManifoldOps => data \in {"rand", "zero"} /\ ~sq)
+             \* large order-4 grids (interior local systems solved iteratively, interior bonds converging last): plain calls only
+             /\ (op \in DivideOps /\ Len(N) >= 4 /\ N[2] >= 8 => g = "none" /\ sc = "unit" /\ r >= 3 /\ data = "rand")
              /\ (op = "elementwise_divide_c" \/ op \in {"div", "rdiv"} => g \in {"none"} \/ op = "elementwise_divide_c")
              /\ cfg = [op |-> op, N |-> N, M |-> IF sq THEN N ELSE RowsOf(N), r |-> r, e |-> e, guess |-> g, seed |-> s, cx |-> cx,
                        backend |-> be, data |-> data, prec |-> prec, maxfull |-> mf, solver |-> ls, sys |-> sys, scale |-> sc]
